@@ -43,8 +43,12 @@ def run(tier, seed, replay=None):
         b2 = {"type": "object", "properties": {names[1]: {"type": "integer"}, names[2]: {"type": "boolean"}}}
         if r.random() < 0.5:
             b1["required"] = [names[0]]
-        doc = {"definitions": {"Contact": {"anyOf": [b1, b2] + ([{"type": "object", "properties": {names[3]: {"type": "string"}}}]
-                                                                if r.random() < 0.4 else [])}}}
+        third = []
+        if r.random() < 0.4:
+            third = [{"type": "object", "properties": {names[3]: {"type": "string"}}}]
+        elif r.random() < 0.5:
+            third = [{"type": ["object", "null"], "properties": {names[3]: {"type": "string"}}}]   # already nullable
+        doc = {"definitions": {"Contact": {"anyOf": [b1, b2] + third}}}
         docs.append(("y%04d" % i, doc, ["anyof_overlap"]))
     cases = [{"id": did, "settings": {"struct_builder": True}, "history": [{"op": "root", "schema": doc}]}
              for did, doc, used in docs]
